@@ -99,11 +99,11 @@ class Sub(Acc):
         self.exhaustive = True
         self.declared = None  # declared space size, must equal n at finish
         self.extra = {}
-        self.t0 = time.time()
+        self.t0 = time.perf_counter()
         self.wall = None
 
     def done(self):
-        self.wall = round(time.time() - self.t0, 3)
+        self.wall = round(time.perf_counter() - self.t0, 3)
         return self
 
 
@@ -113,7 +113,7 @@ class Report:
         self.level = level
         self.tier = env.tier()
         self.seed = env.seed()
-        self.t0 = time.time()
+        self.t0 = time.perf_counter()
         self.subs = collections.OrderedDict()
         self.assumptions = []
         self.explanation = ""
@@ -130,7 +130,7 @@ class Report:
         return self.tier == "thorough"
 
     def log(self, *a):
-        print(f"[{self.pid} {time.time()-self.t0:7.1f}s]", *a, flush=True)
+        print(f"[{self.pid} {time.perf_counter()-self.t0:7.1f}s]", *a, flush=True)
 
     def internal_error(self, msg):
         self.internal_errors.append(msg)
@@ -255,7 +255,7 @@ class Report:
                 "internal_errors": self.internal_errors,
             },
             "assumptions": self.assumptions,
-            "wall_s": round(time.time() - self.t0, 3),
+            "wall_s": round(time.perf_counter() - self.t0, 3),
             "violations": len(viol_new),
         }
         os.makedirs(os.path.join(env.VERIF, "evidence"), exist_ok=True)
